@@ -45,6 +45,7 @@ type Case struct {
 	G         int       `json:"global"`
 	P         int       `json:"per_request"`
 	Warmup    int       `json:"warmup"` // requests the enforcing peer has already handled before the judged one (budgets are per request)
+	WarmP     []int     `json:"warm_p"` // per-request limit of each earlier request (0 = its hook sets none)
 }
 
 func gen(t *rapid.T) Case {
@@ -57,6 +58,9 @@ func gen(t *rapid.T) Case {
 		c.G = rapid.IntRange(bOne, bLarge).Draw(t, "G2")
 	}
 	c.Warmup = rapid.SampledFrom([]int{0, 0, 1, 2}).Draw(t, "warmup")
+	for k := 0; k < c.Warmup; k++ {
+		c.WarmP = append(c.WarmP, rapid.SampledFrom([]int{0, 0, 1, 2, 3, 1000}).Draw(t, "warmp"))
+	}
 	return c
 }
 
@@ -120,37 +124,59 @@ func judge(c Case) *pbt.Verdict {
 		opts.ReqOpts = append(opts.ReqOpts, gsimpl.MaxLinksPerOutgoingRequests(G))
 	}
 	opts.Setup = func(w *sim.World, rq, rs *sim.Inst) {
-		if P > 0 {
-			if c.Responder {
-				rs.GS.RegisterIncomingRequestHook(func(_ peer.ID, _ graphsync.RequestData, ha graphsync.IncomingRequestHookActions) { ha.MaxLinks(P) })
-			} else {
-				rq.GS.RegisterOutgoingRequestHook(func(_ peer.ID, _ graphsync.RequestData, ha graphsync.OutgoingRequestHookActions) { ha.MaxLinks(P) })
+		// per-request limits are set by the request hooks: P for the judged request (none when 0), and an own
+		// limit for each earlier request; the earlier requests are told apart by their root
+		warmLimit := map[cid.Cid]uint64{}
+		limitFor := func(root cid.Cid) uint64 {
+			if root == p.B.Root {
+				return P
 			}
+			return warmLimit[root]
+		}
+		if c.Responder {
+			rs.GS.RegisterIncomingRequestHook(func(_ peer.ID, r graphsync.RequestData, ha graphsync.IncomingRequestHookActions) {
+				if l := limitFor(r.Root()); l > 0 {
+					ha.MaxLinks(l)
+				}
+			})
+		} else {
+			rq.GS.RegisterOutgoingRequestHook(func(_ peer.ID, r graphsync.RequestData, ha graphsync.OutgoingRequestHookActions) {
+				if l := limitFor(r.Root()); l > 0 {
+					ha.MaxLinks(l)
+				}
+			})
 		}
 		rq.GS.RegisterIncomingBlockHook(func(_ peer.ID, _ graphsync.ResponseData, _ graphsync.BlockData, _ graphsync.IncomingBlockHookActions) {
 			reqBlocks++
 		})
 		// history: the enforcing peer has handled other requests before; the budget is per request
 		for k := 0; k < c.Warmup; k++ {
+			// a small DAG of its own (three link loads), so that the hooks can tell the requests apart
+			wd := dagen.DAG{Blocks: []dagen.Block{{Raw: true, Data: fmt.Sprintf("warm-up leaf %d", k)}, {Node: &dagen.Val{K: "list", Vals: []*dagen.Val{{K: "link", L: 0}, {K: "link", L: 0}}}}}}
+			wb, err := wd.Build()
+			if err != nil {
+				continue
+			}
+			if k < len(c.WarmP) {
+				warmLimit[wb.Root] = uint64(c.WarmP[k])
+			}
 			if c.Responder {
+				for cc, d := range wb.Data {
+					rs.Store.Put(cc, d)
+				}
 				w.AddScripted(scen.ThirdID)
 				id, err := graphsync.ParseRequestID([]byte(fmt.Sprintf("c07-warmup-req-%d", k)))
 				if err != nil {
 					panic(err)
 				}
 				w.Net.Connect(scen.ThirdID, scen.RespID)
-				if err := w.Net.Inject(scen.ThirdID, scen.RespID, gsmsg.NewMessage(map[graphsync.RequestID]gsmsg.GraphSyncRequest{id: gsmsg.NewRequest(id, p.B.Root, p.Sel, 0)}, nil, nil)); err != nil {
+				if err := w.Net.Inject(scen.ThirdID, scen.RespID, gsmsg.NewMessage(map[graphsync.RequestID]gsmsg.GraphSyncRequest{id: gsmsg.NewRequest(id, wb.Root, dagen.RecAll(-1).Node(), 0)}, nil, nil)); err != nil {
 					panic(err)
 				}
 				w.Net.Deliver(scen.ThirdID, scen.RespID)
 				w.Quiesce()
 			} else {
-				// a small DAG the requestor holds entirely: the request completes without the network
-				wd := dagen.DAG{Blocks: []dagen.Block{{Raw: true, Data: fmt.Sprintf("warm-up leaf %d", k)}, {Node: &dagen.Val{K: "list", Vals: []*dagen.Val{{K: "link", L: 0}, {K: "link", L: 0}}}}}}
-				wb, err := wd.Build()
-				if err != nil {
-					continue
-				}
+				// the requestor holds it entirely: the request completes without the network
 				for cc, d := range wb.Data {
 					rq.Store.Put(cc, d)
 				}
